@@ -2,6 +2,7 @@
 `model-observation<TAB>spec-verdict`. Imports only Mathlib-free modules so that it links. -/
 import PasskeyVerif.Driver.Hid
 import PasskeyVerif.Driver.Psl
+import PasskeyVerif.Driver.RpId
 open PasskeyVerif
 
 structure DriverState where
@@ -19,6 +20,7 @@ def stepLine (st : DriverState) (line : String) : DriverState × String :=
       let (h, out) := Driver.Hid.step st.hid op impl
       ({ st with hid := h }, out)
     else if tok.startsWith "psl." then (st, Driver.Psl.step op impl)
+    else if tok.startsWith "rp." then (st, Driver.RpId.step op impl)
     else (st, "bad-op\tna")
   | [] => (st, "bad-op\tna")
 
